@@ -298,7 +298,7 @@ def _run_prof(rank, size, case):
     ws = [float(Fraction(*q)) for q in case['w']]
     opt.S = np.array([_params(u, i, names, modes) for i, u in enumerate(us)], dtype=float).reshape(len(us), len(names))
     opt.W = np.array(ws, dtype=float)
-    random.seed(case['rseed'])
+    random.seed(case["rseed"] + 7919 * rank)     # every MPI process has its own random state
     out = dict(lin=_W['lin'])
     if case.get('profiles', True):
         pd, sd = opt.generate_profiles(0, opt._observed.wavenumberGrid)
@@ -487,7 +487,7 @@ def judge_ov(ctx, vec, case, res):
             ev = ca * ca * float(evar)
             em = ca * float(emean) + cb
             gv = np.asarray(out['var'], dtype=float).ravel()
-            gv = gv[ch] if gv.size > ch else float('nan')
+            gv = float(gv[ch]) if gv.size > ch else float('nan')
             gm = out['mean'][ch] if out['mean'] is not None else None
             if not near(gv, ev, 1.0):
                 okv, dv = False, 'rank %d/%d channel %d variance %r expected %r (n=%d, per-rank counts %s)' % (r, nr, ch, gv, ev, n, counts)
@@ -677,15 +677,28 @@ def run(ctx):
     ]
     t = ctx.tier
     # ---------------------------------------------------------------- design level
-    ctx.check_spec('var-interleavings', 'MC_ParallelStats', 'MC_ParallelStats_var_%s.cfg' % t,
+    # (per-action coverage slows TLC down a lot: the big configs prove non-vacuity by the depth of their
+    #  state graph -- every sample updated, every rank gathered and combined / reordered -- and the two small
+    #  configs, which take the same actions, by TLC's action coverage)
+    def deep(label, cfg, depth):
+        res = ctx.check_spec(label, 'MC_ParallelStats', cfg)
+        if res.depth < depth:
+            raise Machinery('vacuous: state graph of %s has depth %d < %d' % (cfg, res.depth, depth))
+        return res
+    if q:
+        deep('var-interleavings', 'MC_ParallelStats_var_quick.cfg', 1 + 4 + 2 * 3)
+        deep('var-every-partition', 'MC_ParallelStats_any_quick.cfg', 1 + 2 * 3)
+        deep('derived-trace', 'MC_ParallelStats_trace_quick.cfg', 1 + 4 + 1 + 3)
+    else:
+        deep('var-interleavings', 'MC_ParallelStats_var_thorough.cfg', 1 + 4 + 2 * 4)
+        deep('var-interleavings-5', 'MC_ParallelStats_var_thorough5.cfg', 1 + 5 + 2 * 4)
+        deep('var-every-partition', 'MC_ParallelStats_any_thorough.cfg', 1 + 2 * 4)
+        deep('derived-trace', 'MC_ParallelStats_trace_thorough.cfg', 1 + 4 + 1 + 4)
+        deep('derived-trace-5', 'MC_ParallelStats_trace_thorough5.cfg', 1 + 5 + 1 + 4)
+    ctx.check_spec('in-process-identity-test', 'MC_ParallelStats', 'MC_ParallelStats_inproc.cfg',
                    need_actions=('UpdateStep', 'GatherStep', 'CombineStep'))
-    ctx.check_spec('var-every-partition', 'MC_ParallelStats', 'MC_ParallelStats_any_%s.cfg' % t,
-                   need_actions=('GatherStep', 'CombineStep'))
-    ctx.check_spec('derived-trace', 'MC_ParallelStats', 'MC_ParallelStats_trace_%s.cfg' % t,
-                   need_actions=('DeriveStep', 'AllReduceConcat', 'ReorderStep'))
-    ctx.check_spec('in-process-identity-test', 'MC_ParallelStats', 'MC_ParallelStats_inproc.cfg', need_actions=('CombineStep',))
     ctx.check_spec('as-built-reorder-keeps-summaries', 'MC_ParallelStats', 'MC_ParallelStats_asbuilt_summaries_%s.cfg' % t,
-                   need_actions=('ReorderStep',))
+                   need_actions=('DeriveStep', 'AllReduceConcat', 'ReorderStep'))
     ctx.exhaustive = True
     ctx.expect_refuted('refute-identity-nan-test', 'MC_ParallelStats', 'MC_ParallelStats_refute_nan.cfg', 'VarianceIsTwoPass')
     ctx.expect_refuted('refute-reorder-by-weight', 'MC_ParallelStats', 'MC_ParallelStats_refute_tie.cfg', 'TraceInSampleOrder')
